@@ -15,7 +15,9 @@ IntClasses == {"negative", "minusone", "zero", "one", "max16", "over16", "maxint
 StrClasses == {"empty", "long", "nonutf8", "unknown", "unicode", "silent"}      \* silent: the connection is opened and nothing is sent
 ListClasses == {"nil", "emptyelem", "huge", "garbage"}
 Classes == IntClasses \cup StrClasses \cup ListClasses \cup {"baseline"}
-ServerPhases == {"first-message", "after-login"}                \* sent to a real frps
+ServerPhases == {"first-message", "after-login",                \* sent to a real frps
+                 "used"}      \* NewProxy only: the definition is registered and, where frps accepts it, traffic is passed through the endpoint
+                              \* it created (message-derived values are used long after the message was handled)
 ClientPhases == {"to-client-control", "to-client-workconn", "to-client-visitor", "to-client-login"}   \* sent to a real frpc by a scripted server
 Phases == ServerPhases \cup ClientPhases
 Cases == MsgTypes \X Classes \X Phases
